@@ -4,6 +4,7 @@ import OFProps.C11.Strings
 import OFProps.C11.Dict
 import OFProps.C11.IO
 import OFModel.Config.Webvis
+import OFProps.C11.REST
 /-!
 # C11 — property theorems
 
@@ -789,5 +790,328 @@ theorem C11_idempotent_Webvis (env : Env) (c c' : Dict) (h : normalizeWebvis env
           simp only [dictDel_absent _ _ hko, C11_nf_Filter_fixed env c' hNF', hg, splitCommasMaybe, hpb, hsrc', hsrc,
             hsl', hsleep]
           simp [truthy]
+
+
+/-! ## Recorder
+
+`Recorder.normalize_config` takes `outputs` out and puts it back at the end of the dict, and appends `rules` when it was
+missing, so a second pass may list the same entries in another order.  Python dict equality ignores order; the theorem
+states it as: the second pass succeeds and every key reads exactly as after the first pass. -/
+
+/-- equal as Python dicts with unique keys: every key reads the same -/
+def SameEntries (a b : Dict) : Prop := ∀ k, lookup a k = lookup b k
+
+theorem splitCommasMaybe_of_not_str (v : Val) (h : isStrV v = false) : splitCommasMaybe v = v := by
+  cases v <;> simp_all [splitCommasMaybe, isStrV]
+
+theorem recorderOutput_not_str (o : Val) : isStrV (recorderOutput o) = false := by
+  cases o <;> simp [recorderOutput, isStrV]
+
+theorem recorderOutput_idem (o : Val) : recorderOutput (recorderOutput o) = recorderOutput o := by
+  cases o <;> simp [recorderOutput]
+
+theorem recorderRules_spec (c3 c' : Dict) (h : recorderRules c3 = .ok c') :
+    ∃ rules, c' = dictSet c3 kRules rules ∧ truthy rules = true ∧ isStrV rules = false ∧
+      checkRulesV rules = .ok () ∧ checkEmpty (getD c' kEmpty) = .ok () := by
+  unfold recorderRules at h
+  simp only at h
+  split at h
+  · cases h
+  · rename_i hchk
+    split at h
+    · cases h
+    · rename_i hemp
+      injection h with h
+      refine ⟨_, h.symm, ?_, ?_, hchk, h ▸ hemp⟩
+      · split
+        · assumption
+        · rfl
+      · split
+        · cases hs : isStrV (splitCommasMaybe (getD c3 kRules))
+          · rfl
+          · exact absurd hs (by intro h'; exact splitCommasMaybe_not_str _ h')
+        · rfl
+
+theorem recorderRules_fixed (c3 : Dict) (rules : Val) (hg : getD c3 kRules = rules) (ht : truthy rules = true)
+    (hs : isStrV rules = false) (hchk : checkRulesV rules = .ok ())
+    (hemp : checkEmpty (getD (dictSet c3 kRules rules) kEmpty) = .ok ()) :
+    recorderRules c3 = .ok (dictSet c3 kRules rules) := by
+  unfold recorderRules
+  simp only [hg, splitCommasMaybe_of_not_str rules hs, ht, ↓reduceIte, hchk, hemp]
+
+/-- **C11 (Recorder, idempotence)**: the second pass succeeds and every key reads as after the first pass. -/
+theorem C11_idempotent_Recorder (env : Env) (c c' : Dict) (h : normalizeRecorder env c = .ok c') :
+    ∃ c'', normalizeRecorder env c' = .ok c'' ∧ SameEntries c'' c' := by
+  unfold normalizeRecorder at h
+  split at h
+  · cases h
+  · rename_i c1 hF
+    simp only at h
+    have hNF : NFFilter env c1 := C11_nf_Filter_out env _ _ hF
+    generalize splitCommasMaybe (getD c kOutputs) = outputs at h
+    split at h
+    · cases h
+    · rename_i hsrc
+      split at h
+      · cases h
+      · split at h
+        · rename_i o _hto
+          split at h
+          · cases h
+          · rename_i name hname
+            split at h
+            · cases h
+            · rename_i hfile
+              obtain ⟨rules, hc', hrt, hrs, hrchk, hremp⟩ := recorderRules_spec _ _ h
+              -- how every key of the first result reads
+              have hne : kRules ≠ kOutputs := by decide
+              have hout : getD c' kOutputs = .list [recorderOutput o] := by
+                rw [hc', getD_dictSet_ne _ _ _ _ (Ne.symm hne), getD_dictSet_eq]
+              have hrules : getD c' kRules = rules := by rw [hc', getD_dictSet_eq]
+              have hother : ∀ k, k ≠ kOutputs → k ≠ kRules → lookup c' k = lookup c1 k := by
+                intro k h1 h2
+                rw [hc', lookup_dictSet_ne _ _ _ _ h2, lookup_dictSet_ne _ _ _ _ h1, lookup_putBack_ne _ _ _ _ h1]
+              have hsrc1 : getD (putBack kOutputs (Val.list [o]) c1) kSources = getD c1 kSources :=
+                getD_of_lookup_eq (lookup_putBack_ne _ _ _ _ (by decide))
+              rw [hsrc1] at hsrc
+              -- second pass
+              let d := dictDel c' kOutputs
+              have hd : ∀ k, k ≠ kOutputs → k ≠ kRules → getD d k = getD c1 k := by
+                intro k h1 h2
+                exact getD_of_lookup_eq (by rw [lookup_dictDel_ne _ _ _ h1, hother k h1 h2])
+              have hNFd : NFFilter env d := by
+                apply NFFilter_congr env c1 d hNF
+                · exact hd _ (by decide) (by decide)
+                · right; exact getD_dictDel_eq _ _
+                · exact hd _ (by decide) (by decide)
+                · exact hd _ (by decide) (by decide)
+                · exact hd _ (by decide) (by decide)
+                · exact hd _ (by decide) (by decide)
+              have hpb : putBack kOutputs (Val.list [recorderOutput o]) d = dictSet d kOutputs (Val.list [recorderOutput o]) := by
+                simp [putBack]
+              have hsrc2 : getD (dictSet d kOutputs (Val.list [recorderOutput o])) kSources = getD c1 kSources := by
+                rw [getD_dictSet_ne _ _ _ _ (by decide)]; exact hd _ (by decide) (by decide)
+              have hrules2 : getD (dictSet (dictSet d kOutputs (Val.list [recorderOutput o])) kOutputs (Val.list [recorderOutput o])) kRules = rules := by
+                rw [getD_dictSet_ne _ _ _ _ hne, getD_dictSet_ne _ _ _ _ hne, ← hrules]
+                exact getD_of_lookup_eq (lookup_dictDel_ne _ _ _ hne)
+              have hemp2 : checkEmpty (getD (dictSet (dictSet (dictSet d kOutputs (Val.list [recorderOutput o])) kOutputs
+                  (Val.list [recorderOutput o])) kRules rules) kEmpty) = .ok () := by
+                rw [getD_dictSet_ne _ _ _ _ (by decide), getD_dictSet_ne _ _ _ _ (by decide),
+                  getD_dictSet_ne _ _ _ _ (by decide)]
+                have : getD d kEmpty = getD c' kEmpty := getD_of_lookup_eq (lookup_dictDel_ne _ _ _ (by decide))
+                rw [this]; exact hremp
+              refine ⟨dictSet (dictSet (dictSet d kOutputs (Val.list [recorderOutput o])) kOutputs
+                  (Val.list [recorderOutput o])) kRules rules, ?_, ?_⟩
+              · unfold normalizeRecorder
+                simp only [show dictDel c' kOutputs = d from rfl, C11_nf_Filter_fixed env d hNFd, hout,
+                  splitCommasMaybe, hpb, hsrc2, hsrc, recorderOutput_idem, hname, hfile]
+                simp only [truthy, List.isEmpty_cons, Bool.not_false, Bool.false_eq_true, ↓reduceIte, Bool.not_true]
+                exact recorderRules_fixed _ rules hrules2 hrt hrs hrchk hemp2
+              · intro k
+                by_cases h2 : k = kRules
+                · subst h2
+                  rw [lookup_dictSet_eq, hc', lookup_dictSet_eq]
+                · rw [lookup_dictSet_ne _ _ _ _ h2]
+                  by_cases h1 : k = kOutputs
+                  · subst h1
+                    rw [lookup_dictSet_eq, hc', lookup_dictSet_ne _ _ _ _ h2, lookup_dictSet_eq]
+                  · rw [lookup_dictSet_ne _ _ _ _ h1, lookup_dictSet_ne _ _ _ _ h1]
+                    exact lookup_dictDel_ne _ _ _ h1
+          · cases h
+        all_goals cases h
+
+
+/-! ## REST (behaviour with the pending fixes `C11-rest-base-path`, `C11-rest-endpoint-dicts`) -/
+
+theorem getD_eq_of_lookup_some {c : Dict} {k : Str} {v : Val} (h : lookup c k = some v) : getD c k = v := by
+  simp [getD, h]
+
+/-- **C11 (REST, idempotence)**, for validator outcomes where the absolute path of a directory is again a directory:
+the second pass succeeds and every key reads exactly as after the first pass (`SameEntries`, i.e. equal as Python
+dicts; `sources=[]` and the materialised `declared_fps` may swap places in the key order). -/
+theorem C11_idempotent_REST (env : Env) (henv : IsDirStable env) (c c' : Dict) (h : normalizeREST true env c = .ok c') :
+    ∃ c'', normalizeREST true env c' = .ok c'' ∧ SameEntries c'' c' := by
+  unfold normalizeREST at h
+  split at h
+  · cases h
+  · rename_i c1 hF
+    simp only at h
+    have hk1 : lookup c1 kSources = none := by
+      rw [lookup_none_iff, keys_normalizeFilter env _ _ hF]; exact not_mem_keys_dictDel c kSources
+    have hNF : NFFilter env c1 := C11_nf_Filter_out env _ _ hF
+    have hnstr : isStrV (splitCommasMaybe (getD c kSources)) = false := by
+      cases hs : isStrV (splitCommasMaybe (getD c kSources))
+      · rfl
+      · exact absurd hs (by intro h'; exact splitCommasMaybe_not_str _ h')
+    generalize splitCommasMaybe (getD c kSources) = sources at h hnstr
+    split at h
+    · cases h
+    · rename_i hout
+      split at h
+      · cases h
+      · rename_i c3 h3
+        split at h
+        · cases h
+        · rename_i c4 h4
+          split at h
+          · cases h
+          · rename_i c5 h5
+            have f7 := normResourcePath_frame env _ _ h
+            have f5 := normEndpoints_frame _ _ h5
+            have f4 := normBasePath_frame _ _ h4
+            -- frames from c3 to c'
+            have f37 : ∀ k, k ≠ kBasePath → k ≠ kEndpoints → k ≠ kDeclaredFps → k ≠ kResourcePath → lookup c' k = lookup c3 k := by
+              intro k a b d e
+              rw [f7 k e, lookup_dictSet_ne _ _ _ _ d, f5 k b, f4 k a]
+            have f2 : ∀ k, k ≠ kSources → lookup (putBack kSources sources c1) k = lookup c1 k :=
+              fun k hk => lookup_putBack_ne _ _ _ _ hk
+            -- the Filter keys other than `sources` read as in c1
+            have f3 : ∀ k, k ≠ kBasePath → k ≠ kHost → k ≠ kPort → k ≠ kSources → k ≠ kEndpoints →
+                lookup c3 k = lookup c1 k := by
+              intro k a b d e g
+              split at h3
+              · rw [(restSource_frame _ _ _ h3).2 k a b d e g, f2 k e]
+              · injection h3 with h3; subst h3; exact f2 k e
+            have fF : ∀ k, k ≠ kBasePath → k ≠ kHost → k ≠ kPort → k ≠ kSources → k ≠ kEndpoints →
+                k ≠ kDeclaredFps → k ≠ kResourcePath → lookup c' k = lookup c1 k := by
+              intro k a b d e g i j
+              rw [f37 k a g i j, f3 k a b d e g]
+            -- how `sources` reads after the first pass
+            have hS : lookup c' kSources = none ∨
+                ∃ v, lookup c' kSources = some v ∧ v ≠ .null ∧ truthy v = false ∧ isStrV v = false := by
+              rw [f37 _ (by decide) (by decide) (by decide) (by decide)]
+              split at h3
+              · left; exact (restSource_frame _ _ _ h3).1
+              · rename_i hfalsy
+                injection h3 with h3; subst h3
+                by_cases hn : sources = .null
+                · left; subst hn; simp [putBack, hk1]
+                · right
+                  refine ⟨sources, ?_, hn, by simpa using hfalsy, hnstr⟩
+                  simp [putBack, hn, lookup_dictSet_eq]
+            -- values of the REST fields after the first pass
+            have hbase : NFBase (getD c' kBasePath) := by
+              have : getD c' kBasePath = getD c4 kBasePath := getD_of_lookup_eq (by
+                rw [f7 _ (by decide), lookup_dictSet_ne _ _ _ _ (by decide), f5 _ (by decide)])
+              rw [this]; exact normBasePath_out _ _ h4
+            have hend : NFEnd (getD c' kEndpoints) := by
+              have : getD c' kEndpoints = getD c5 kEndpoints := getD_of_lookup_eq (by
+                rw [f7 _ (by decide), lookup_dictSet_ne _ _ _ _ (by decide)])
+              rw [this]; exact normEndpoints_out _ _ h5
+            have hdecl : lookup c' kDeclaredFps = some (getD c5 kDeclaredFps) := by
+              rw [f7 _ (by decide), lookup_dictSet_eq]
+            have hres : NFRes env (getD c' kResourcePath) := normResourcePath_out env henv _ _ h
+            have hout' : getD c' kOutputs = getD (putBack kSources sources c1) kOutputs := getD_of_lookup_eq (by
+              rw [fF _ (by decide) (by decide) (by decide) (by decide) (by decide) (by decide) (by decide),
+                f2 _ (by decide)])
+            -- second pass
+            let d := dictDel c' kSources
+            have hd : ∀ k, k ≠ kSources → lookup d k = lookup c' k := fun k hk => lookup_dictDel_ne _ _ _ hk
+            have hNFd : NFFilter env d := by
+              have g : ∀ k, k ≠ kBasePath → k ≠ kHost → k ≠ kPort → k ≠ kSources → k ≠ kEndpoints →
+                  k ≠ kDeclaredFps → k ≠ kResourcePath → getD d k = getD c1 k := by
+                intro k a b e f g i j
+                exact getD_of_lookup_eq (by rw [hd k f, fF k a b e f g i j])
+              apply NFFilter_congr env c1 d hNF
+              · rw [show getD d kSources = .null from getD_dictDel_eq _ _]
+                have : getD c1 kSources = .null := by simp [getD, hk1]
+                rw [this]
+              · left; exact g _ (by decide) (by decide) (by decide) (by decide) (by decide) (by decide) (by decide)
+              · exact g _ (by decide) (by decide) (by decide) (by decide) (by decide) (by decide) (by decide)
+              · exact g _ (by decide) (by decide) (by decide) (by decide) (by decide) (by decide) (by decide)
+              · exact g _ (by decide) (by decide) (by decide) (by decide) (by decide) (by decide) (by decide)
+              · exact g _ (by decide) (by decide) (by decide) (by decide) (by decide) (by decide) (by decide)
+            -- the comma-split `sources` of the second pass and the dict with it put back
+            have hs2 : ∃ s', splitCommasMaybe (getD c' kSources) = s' ∧ truthy s' = false ∧
+                SameEntries (putBack kSources s' d) c' := by
+              rcases hS with hnone | ⟨v, hv, hvn, hvf, hvs⟩
+              · refine ⟨.null, by simp [getD, hnone, splitCommasMaybe], rfl, ?_⟩
+                intro k
+                by_cases hk : k = kSources
+                · subst hk
+                  simp only [putBack, ↓reduceIte]
+                  rw [hnone]; exact (lookup_none_iff _ _).2 (not_mem_keys_dictDel _ _)
+                · simp only [putBack, ↓reduceIte]; exact hd k hk
+              · refine ⟨v, by rw [getD_eq_of_lookup_some hv, splitCommasMaybe_of_not_str v hvs], hvf, ?_⟩
+                intro k
+                by_cases hk : k = kSources
+                · subst hk; simp [putBack, hvn, lookup_dictSet_eq, hv]
+                · simp only [putBack, hvn, ↓reduceIte]
+                  rw [lookup_dictSet_ne _ _ _ _ hk]; exact hd k hk
+            obtain ⟨s', hs', hs'f, hsame⟩ := hs2
+            have hg : ∀ k, getD (putBack kSources s' d) k = getD c' k := fun k => getD_of_lookup_eq (hsame k)
+            refine ⟨putBack kSources s' d, ?_, hsame⟩
+            have e1 : normBasePath true (putBack kSources s' d) = .ok (putBack kSources s' d) :=
+              normBasePath_fixed _ (by rw [hg]; exact hbase)
+            have e2 : normEndpoints true (putBack kSources s' d) = .ok (putBack kSources s' d) :=
+              normEndpoints_fixed _ (by rw [hg]; exact hend)
+            have e3 : dictSet (putBack kSources s' d) kDeclaredFps (getD (putBack kSources s' d) kDeclaredFps) =
+                putBack kSources s' d := by
+              apply dictSet_lookup_self
+              rw [hsame, hdecl, hg, getD_eq_of_lookup_some hdecl]
+            have e4 : normResourcePath env (putBack kSources s' d) = .ok (putBack kSources s' d) :=
+              normResourcePath_fixed env _ (by rw [hg]; exact hres)
+            unfold normalizeREST
+            simp only [show dictDel c' kSources = d from rfl, C11_nf_Filter_fixed env d hNFd, hs', hg, hout', hout, hs'f,
+              Bool.false_eq_true, ↓reduceIte, e1, e2]
+            rw [← hg kDeclaredFps, e3, e4]
+
+
+/-! ## non-vacuity and negative witnesses (classes) -/
+
+def exCfg (kvs : List (String × Val)) : Dict := kvs.map (fun p => (p.1.toList, p.2))
+def sv (s : String) : Val := .str s.toList
+
+/-- Filter: the hypotheses of `C11_idempotent_Filter` are satisfiable, and the first pass does change the config -/
+example : normalizeFilter {} (exCfg [("id", sv "f"), ("sources", sv "tcp://a;x>y , tcp://b"), ("outputs", sv ""), ("mq_log", .bool true),
+      ("extra_metrics", .list [.list [sv "a", .int 1]])]) =
+    .ok (exCfg [("id", sv "f"), ("sources", .list [sv "tcp://a;x>y", sv "tcp://b"]), ("outputs", .null), ("mq_log", sv "all"),
+      ("extra_metrics", .dict [("a".toList, .int 1)])]) := by decide +kernel
+
+/-- VideoIn: the corrected docstring example, text form = list form = structured form -/
+example :
+    normalizeVideoIn {} (exCfg [("id", sv "v"), ("outputs", sv "tcp://*"),
+      ("sources", sv "file://a.mp4!sync!loop=3, rtsp://b.com!no-bgr;c, webcam://0;e")]) =
+    normalizeVideoIn {} (exCfg [("id", sv "v"), ("outputs", sv "tcp://*"),
+      ("sources", .list [
+        .dict (exCfg [("source", sv "file://a.mp4"), ("topic", sv "main"), ("options", .dict (exCfg [("sync", .bool true), ("loop", .int 3)]))]),
+        .dict (exCfg [("source", sv "rtsp://b.com"), ("topic", sv "c"), ("options", .dict (exCfg [("bgr", .bool false)]))]),
+        .dict (exCfg [("source", sv "webcam://0"), ("topic", sv "e"), ("options", .dict [])])])]) ∧
+    (normalizeVideoIn {} (exCfg [("id", sv "v"), ("outputs", sv "tcp://*"),
+      ("sources", sv "file://a.mp4!sync!loop=3, rtsp://b.com!no-bgr;c, webcam://0;e")])).toOption.isSome = true := by
+  decide +kernel
+
+/-- the VideoIn docstring example as written at the pinned commit is rejected: two sources on topic `main` -/
+example : normalizeVideoIn {} (exCfg [("id", sv "v"), ("outputs", sv "tcp://*"),
+    ("sources", sv "file://a.mp4!sync!loop=3, rtsp://b.com!no-bgr;c, s3://bucket/video.mp4!region=us-west-2, webcam://0;e")]) =
+    .error .valueError := by decide +kernel
+
+/-- VideoOut: unknown options move into `params`, and the result is a fixed point -/
+example : (normalizeVideoOut {} (exCfg [("id", sv "o"), ("sources", sv "tcp://a"), ("outputs", sv "file://o.mp4!fps=15!crf=23;cam")])).toOption.map
+      (fun c => (getD c kOutputs, normalizeVideoOut {} c == .ok c)) =
+    some (.list [.dict (exCfg [("output", sv "file://o.mp4"), ("topic", sv "cam"),
+      ("options", .dict (exCfg [("fps", .int 15), ("params", .dict (exCfg [("crf", .int 23)]))]))])], true) := by decide +kernel
+
+/-- REST, pinned behaviour (`fixed = false`): `base_path='//api//'` normalises to `/api/` and only then to `api` -/
+example : (normalizeREST false {} (exCfg [("id", sv "r"), ("outputs", sv "tcp://*"), ("base_path", sv "//api//")])).toOption.map
+      (fun c => (getD c kBasePath, (normalizeREST false {} c).toOption.map (getD · kBasePath))) =
+    some (sv "/api/", some (sv "api")) := by decide +kernel
+
+/-- REST, pinned behaviour: `base_path='/api'` is lost (`'/api'[1:-0]` is empty) -/
+example : (normalizeREST false {} (exCfg [("id", sv "r"), ("outputs", sv "tcp://*"), ("base_path", sv "/api")])).toOption.map
+      (getD · kBasePath) = some .null := by decide +kernel
+
+/-- REST, pinned behaviour: an endpoint path loses one leading slash per pass -/
+example : (normalizeREST false {} (exCfg [("id", sv "r"), ("outputs", sv "tcp://*"), ("sources", sv "http://h;//x>t")])).toOption.map
+      (fun c => (normalizeREST false {} c == .ok c)) = some false := by decide +kernel
+
+/-- REST with the fixes: the same three inputs give `api`, `api`, and a fixed point -/
+example :
+    (normalizeREST true {} (exCfg [("id", sv "r"), ("outputs", sv "tcp://*"), ("base_path", sv "//api//")])).toOption.map (getD · kBasePath) = some (sv "api") ∧
+    (normalizeREST true {} (exCfg [("id", sv "r"), ("outputs", sv "tcp://*"), ("base_path", sv "/api")])).toOption.map (getD · kBasePath) = some (sv "api") ∧
+    (normalizeREST true {} (exCfg [("id", sv "r"), ("outputs", sv "tcp://*"), ("sources", sv "http://h:8000/api/;(get|post)//x>t")])).toOption.map
+      (fun c => (getD c kEndpoints, normalizeREST true {} c == .ok c)) =
+      some (.list [.dict (exCfg [("methods", .list [sv "GET", sv "POST"]), ("path", sv "x"), ("topic", sv "t")])], true) := by
+  decide +kernel
 
 end OF.Config
